@@ -4,4 +4,5 @@ pub mod c01;
 pub mod c02;
 pub mod c03;
 pub mod c07;
+pub mod c08;
 pub mod c10;
